@@ -142,7 +142,7 @@ def sh(cmd, cwd=None, timeout=None, env=None):
 
 
 def make_copy(m, d):
-    sh(["rsync", "-a", "--delete", "--exclude=.git", "--exclude=*.o", "--exclude=*.a", "--exclude=*.so", "--exclude=/bin/eav", REPO + "/", d + "/"])
+    sh(["rsync", "-a", "--delete", "--exclude=.git", "--exclude=*.o", "--exclude=*.a", "--exclude=*.so", "--exclude=*.bin", "--exclude=/bin/eav", REPO + "/", d + "/"])
     p = os.path.join(d, m["file"]); t = open(p, errors="surrogateescape").read()
     assert t[m["pos"]:m["end"]] == m["old"], "mutant does not fit the tree"
     open(p, "w", errors="surrogateescape").write(t[:m["pos"]] + m["new"] + t[m["end"]:])
@@ -152,7 +152,7 @@ BASE_PASS = [None]   # number of ": PASS" lines of the suite on the unchanged tr
 def baseline_pass():
     d = tempfile.mkdtemp(prefix="mutA.", dir="/tmp")
     try:
-        sh(["rsync", "-a", "--exclude=.git", "--exclude=*.o", "--exclude=*.a", "--exclude=*.so", "--exclude=/bin/eav", REPO + "/", d + "/"])
+        sh(["rsync", "-a", "--exclude=.git", "--exclude=*.o", "--exclude=*.a", "--exclude=*.so", "--exclude=*.bin", "--exclude=/bin/eav", REPO + "/", d + "/"])
         rc, out = sh(["make", "-s"], cwd=d, timeout=300); rc2, out2 = sh(["make", "-s", "check"], cwd=d, timeout=300)
         if rc or rc2: raise SystemExit("the unchanged tree does not pass its suite")
         return out2.count(": PASS")
